@@ -112,6 +112,18 @@ SEGLOG_RULE = (" seglog: random operation sequences on the REAL SegmentedLog in 
                "prune_oldest / prune_recent; close and reopen with chosen live ranges): after EVERY operation the directory listing (file names, sizes, FNV-1a of the bytes) and the records returned by reopening with the "
                "current live range must equal the Lean model; crash images built through the I/O hook (the k-th effect of an operation and every later one fail; torn appends; lost unlinks) must be opened by the real "
                "code as the model predicts; Delta::encode / decode and Rollback::read (`rbread`) on generated and malformed inputs.")
+# trie positions / page ids / page regions / page layout (hook H9), worker split and witness assembly recorded from real updates (hook H10),
+# the rollback delta builder and Rollback bookkeeping (hook H11), overflow values (hook H12) against their Lean mirrors
+TRIEPOS_RUN = {"cmd": "triepos", "mode": "triepos", "cases": {"quick": 1500, "thorough": 20000}, "shards": {"quick": 4, "thorough": 16}}
+SHARDS_RUN = {"cmd": "shards", "mode": "shards", "cases": {"quick": 60, "thorough": 3600}, "shards": {"quick": 4, "thorough": 16}}
+DELTA_RUNS = [{"cmd": "delta", "mode": "delta", "cases": {"quick": 120, "thorough": 3000}, "shards": {"quick": 4, "thorough": 16}},
+              {"cmd": "delta-log", "mode": "delta", "cases": {"quick": 1000, "thorough": 20000}, "shards": {"quick": 4, "thorough": 16}}]
+OVERFLOW_RUN = {"cmd": "overflow", "mode": "overflow", "cases": {"quick": 160, "thorough": 3000}, "shards": {"quick": 4, "thorough": 16}}
+UNIT_RULE = (" Unit-level differentials through nomt::verif_api: triepos (every function of trie_pos.rs / page_id.rs / page_region.rs and the page node layout on positions of every depth 1..256, moves, page ids of depth 0..42, "
+             "malformed inputs where the Rust asserts); shards (worker ranges, batch ownership, witnessed_start, child-page roots, pending list and the witness exactly as join assembles it, recorded from REAL updates with worker counts "
+             "{1,2,3,5,6,7,12,33,64} and root-page terminals straddling region boundaries); delta / delta-log (the priors the real delta builder computes on overlay chains that delete / insert / overwrite the same keys, small and overflow "
+             "values, blind writes and read-then-writes; the real Rollback alone: commit, commit_nonblocking busy, truncate, sync, reopen); overflow (chunk / read / AsyncReader / delete / cell codec on a scratch file at every length boundary: "
+             "1333, k*4092 +- 1, the 15 -> 16 pointer spill, up to 4.2 MB). Every line vs the Lean mirror and vs independent harness oracles.")
 IMG_RUN = {"cmd": "image", "mode": "image", "cases": {"quick": 24, "thorough": 400}, "shards": {"quick": 8, "thorough": 16}}
 # directed replay (corpus): history 18 of image seed 1000 — 1616 fat-valued keys, half of them under a 200-bit common prefix;
 # the commit that splits the branch node writes a separator whose last bit is lost (see KNOWN finding candidate F13 in the report)
@@ -159,8 +171,8 @@ PROPS = {
         "runs": IMG_CORPUS + [{"cmd": "image-prefix-shrink", "mode": "image", "cases": {"quick": 1, "thorough": 1}, "corpus": True},
                               {"cmd": "image-prefix-tail", "mode": "image", "cases": {"quick": 1, "thorough": 1}, "corpus": True},
                               {"cmd": "image-script", "mode": "image", "args": ["--focus", "script-freelist-reopen"], "cases": {"quick": 1, "thorough": 1}, "corpus": True},
-                              {"cmd": "image-branch-ops", "mode": "image", "cases": {"quick": 8, "thorough": 160}, "shards": {"quick": 8, "thorough": 16}}, dict(IMG_RUN), dict(WAL_RUN)] + BITOPS_RUNS + CRASH_IMAGES,
-        "rule": IMG_RULE + CRASH_IMAGES_RULE + WAL_RULE + BITOPS_RULE,
+                              {"cmd": "image-branch-ops", "mode": "image", "cases": {"quick": 8, "thorough": 160}, "shards": {"quick": 8, "thorough": 16}}, dict(IMG_RUN), dict(WAL_RUN), dict(TRIEPOS_RUN), dict(OVERFLOW_RUN)] + BITOPS_RUNS + CRASH_IMAGES,
+        "rule": IMG_RULE + CRASH_IMAGES_RULE + WAL_RULE + BITOPS_RULE + UNIT_RULE,
         "trusted_base": IMG_TB, "assumptions": IMG_ASSUME,
     },
     "C19": {
@@ -169,7 +181,7 @@ PROPS = {
                  {"cmd": "image-cycles", "mode": "image", "args": ["--cycles", "10", "--keys", "300"], "cases": {"quick": 1, "thorough": 1}, "corpus": True, "leaks_fail": True},
                  {"cmd": "image-cycles", "mode": "image", "args": ["--cycles", "8", "--keys", "2500"], "cases": {"quick": 0, "thorough": 1}, "corpus": True, "leaks_fail": True, "thorough_only": True},
                  {"cmd": "image-script", "mode": "image", "args": ["--focus", "script-freelist-reopen"], "cases": {"quick": 1, "thorough": 1}, "corpus": True, "leaks_fail": True},
-                 dict(IMG_RUN, leaks_fail=True), dict(ALLOC_FL), dict(ALLOC_PROBE)],
+                 dict(IMG_RUN, leaks_fail=True), dict(ALLOC_FL), dict(ALLOC_PROBE), dict(OVERFLOW_RUN)],
         "rule": IMG_RULE + ALLOC_RULE + " C19 (accounting): for ln and bbn every page number in [1, bump) must be in use by the decoded state (leaf / overflow / branch) or tracked by the "
                 "free list (free-list page or listed free page), and no page may be both; the driver prints ln_leaked / bbn_leaked per snapshot and any non-zero value is reported as "
                 "`C19 leaked pages: …`; hash-table occupancy: the value returned by Nomt::hash_table_utilization().occupied at every snapshot must equal the number of full meta bytes the decoder finds (ht_full), which in turn must equal the number of merkle pages that must be stored (0 for the empty store); frontier: 10 (thorough: 8 x 2500 keys, several free-list pages) identical fill / refill-with-migrating-value-sizes / empty cycles, criterion fixed in advance: ln_bump and bbn_bump read from the meta page after the last cycle must not exceed those after cycle 4.",
@@ -202,6 +214,7 @@ PROPS = {
             {"cmd": "image-prefix-shrink", "mode": "image", "cases": {"quick": 1, "thorough": 1}, "corpus": True},
             {"cmd": "image-prefix-tail", "mode": "image", "cases": {"quick": 1, "thorough": 1}, "corpus": True},
             {"cmd": "image-branch-ops", "cases": {"quick": 48, "thorough": 800}, "shards": {"quick": 8, "thorough": 16}},
+            dict(OVERFLOW_RUN),
             DB("kv", 160, 1600, nops=16, big=True),
             DB("kv", 6, 60, nops=20, big=True, scale=100, shards_q=6),
             DB("general", 80, 800, nops=14),
@@ -213,14 +226,14 @@ PROPS = {
         "lines": ['root', 'finish', 'overlay', 'reopen', 'rootof', 'buildtrie', 'setkv'],
         "tags": ['C02'],
         "runs": DB_SCRIPT(["script-elision-threshold"]) + [DB("kv", 120, 1200, nops=14), DB("kv", 6, 60, nops=16, scale=100, shards_q=6), DB("overlay", 60, 600, nops=14),
-                 {"cmd": "core-pp", "mode": "core", "cases": {"quick": 300, "thorough": 6000}, "shards": {"quick": 4, "thorough": 16}}],
-        "rule": DB_RULE + " C02: every root reported by the real code (session base, finished session, overlay, Nomt::root, after reopen/rollback) is compared with the Lean specification function nodeAt executed on the model's key-value list (Blake3 implemented in Lean) and with the harness reference trie.",
+                 {"cmd": "core-pp", "mode": "core", "cases": {"quick": 300, "thorough": 6000}, "shards": {"quick": 4, "thorough": 16}}, dict(TRIEPOS_RUN), dict(SHARDS_RUN)],
+        "rule": DB_RULE + UNIT_RULE + " C02: every root reported by the real code (session base, finished session, overlay, Nomt::root, after reopen/rollback) is compared with the Lean specification function nodeAt executed on the model's key-value list (Blake3 implemented in Lean) and with the harness reference trie.",
         "trusted_base": API_TB, "assumptions": API_ASSUME,
     },
     "C05": {
         "lines": ['prove', 'pshash', 'psnext', 'psalloc', 'pslookup', 'iter', 'bti', 'leaffetch', 'seeknode'],
         "tags": ['C05'],
-        "runs": DB_SCRIPT(["script-elision-threshold"]) + [DB("kv", 120, 1200, nops=14), DB("overlay", 80, 800, nops=14), DB("overlay", 120, 1200, nops=16, big=True), DB("reopen", 60, 600, nops=14), DB("kv", 4, 40, nops=14, scale=100, shards_q=4), dict(ALLOC_PROBE), dict(ALLOC_LOOKUP), dict(OVL_RUN)],
+        "runs": DB_SCRIPT(["script-elision-threshold"]) + [DB("kv", 120, 1200, nops=14), DB("overlay", 80, 800, nops=14), DB("overlay", 120, 1200, nops=16, big=True), DB("reopen", 60, 600, nops=14), DB("kv", 4, 40, nops=14, scale=100, shards_q=4), dict(ALLOC_PROBE), dict(ALLOC_LOOKUP), dict(OVL_RUN), dict(TRIEPOS_RUN)],
         "rule": DB_RULE + OVL_RULE + " C05: Session::prove for present keys, absent keys diverging from a present key at interesting depths (page boundaries 6k-1..6k+1, just below the terminal, 246..255) and random keys, on plain / overlay sessions, cold caches after reopen; the proof object must equal the Lean proveSpec (terminal + every sibling) and verify + confirm the session's view with the real verifier.",
         "trusted_base": API_TB, "assumptions": API_ASSUME,
     },
@@ -229,22 +242,22 @@ PROPS = {
                   'append', 'close', 'crash', 'deltadec', 'deltaenc', 'new', 'open', 'probe', 'pruneold', 'prunerecent', 'rbread', 'reprobe'],
         "tags": ['C09', 'C01', 'C02'],
         "runs": DB_SCN(["stale-nonblocking-then-rollback", "reopen-resurrects-pruned-delta", "rollback-all-then-reopen", "rollback-reopen-rollback-reopen", "overwrite-huge-value-with-rollback"]) + [
-            DB("rollback", 200, 2000, nops=18), DB("rollback", 120, 1200, nops=20, segsize=8192), DB("general", 80, 800, nops=16, big=True), CHURN, dict(SEGLOG_RUN)],
-        "rule": DB_RULE + SEGLOG_RULE + " C09 focus: max_rollback_log_len in {1,2,3,5}; rollback(n) with n in {0,1,2,len,len+1}; rollbacks after reopen, after stale commits, over overlay commits and large values; the oracle keeps the previous committed maps.",
+            DB("rollback", 200, 2000, nops=18), DB("rollback", 120, 1200, nops=20, segsize=8192), DB("general", 80, 800, nops=16, big=True), CHURN, dict(SEGLOG_RUN)] + DELTA_RUNS,
+        "rule": DB_RULE + SEGLOG_RULE + UNIT_RULE + " C09 focus: max_rollback_log_len in {1,2,3,5}; rollback(n) with n in {0,1,2,len,len+1}; rollbacks after reopen, after stale commits, over overlay commits and large values; the oracle keeps the previous committed maps.",
         "trusted_base": API_TB, "assumptions": API_ASSUME + ["segment roll-over and pruning of the rollback log are reached through the cfg(nomt_verif) segment-size override (8 KiB segments); the 64 MiB default is not reached by quick runs"],
     },
     "C11": {
         "lines": ['begin', 'read', 'prove', 'finish', 'overlay', 'ocommit', 'otrycommit', 'root', 'odrop', 'sdrop', 'dread',
                   'live', 'val', 'page', 'commit', 'drop', 'dropl', 'pstatus', 'reset', 'seeknode', 'iter'],
         "tags": ['C11', 'C01', 'C02', 'C05'],
-        "runs": DB_SCN(["rejected-overlay-marks-committed"]) + [DB("overlay", 200, 2000, nops=18), DB("general", 60, 600, nops=16), dict(OVL_RUN)],
+        "runs": DB_SCN(["rejected-overlay-marks-committed"]) + [DB("overlay", 200, 2000, nops=18), DB("general", 60, 600, nops=16), dict(OVL_RUN), dict(DELTA_RUNS[0])],
         "rule": DB_RULE + OVL_RULE + " C11 focus: overlay trees (chains, sibling forks, dropped and committed ancestors), sessions on every live fork, wrong / incomplete / reordered ancestor lists, in-order and out-of-order overlay commits.",
         "trusted_base": API_TB, "assumptions": API_ASSUME,
     },
     "C12": {
         "lines": ['commit', 'trycommit', 'ocommit', 'otrycommit', 'root', 'seqn', 'rollback', 'dread'],
         "tags": ['C12', 'C09', 'C01', 'C02'],
-        "runs": DB_SCN(["stale-nonblocking-then-rollback", "rejected-overlay-marks-committed"]) + [DB("reject", 200, 2000, nops=16), DB("general", 60, 600, nops=16)],
+        "runs": DB_SCN(["stale-nonblocking-then-rollback", "rejected-overlay-marks-committed"]) + [DB("reject", 200, 2000, nops=16), DB("general", 60, 600, nops=16)] + DELTA_RUNS,
         "rule": DB_RULE + " C12 focus: pairs of changesets on one base committed in both orders and flavours (blocking / non-blocking, session / overlay), rollback in between, non-blocking commits while a session is alive; after every rejected or deferred attempt root, seqn, values and the result of later rollbacks are compared.",
         "trusted_base": API_TB, "assumptions": API_ASSUME,
     },
@@ -279,15 +292,15 @@ PROPS = {
     },
     "C13": {
         "runs": [{"cmd": "db-matrix", "mode": "api", "args": ["--focus", "general", "--nops", "12", "--variants", "8"], "cases": {"quick": 40, "thorough": 400}, "shards": {"quick": 8, "thorough": 16}},
-                 {"cmd": "db-matrix", "mode": "api", "args": ["--focus", "kv", "--nops", "12", "--variants", "5", "--scale", "60"], "cases": {"quick": 4, "thorough": 40}, "shards": {"quick": 4, "thorough": 16}}],
-        "rule": "cases = generated histories, each executed under 5-8 configurations (commit_concurrency in {1,2,3,4,5,7,8,16,33,64}, warm_up on/off, page cache 1..256 MiB, leaf cache 1..256 MiB, io_workers 1..3, prepopulation, upper levels 0..3, hashtable_buckets in {4096,16384,64000}, different bitbox seeds; the runtime configuration also changes at every reopen); EVERY protocol line (roots, values, proofs byte-for-byte, commit / rollback verdicts, seqn) must be identical across configurations and equal to the configuration-free Lean model. distinct & non-trivial = (history, configuration) pairs beyond the first configuration that completed identically.",
+                 {"cmd": "db-matrix", "mode": "api", "args": ["--focus", "kv", "--nops", "12", "--variants", "5", "--scale", "60"], "cases": {"quick": 4, "thorough": 40}, "shards": {"quick": 4, "thorough": 16}}, dict(SHARDS_RUN)],
+        "rule": UNIT_RULE.strip() + " cases = generated histories, each executed under 5-8 configurations (commit_concurrency in {1,2,3,4,5,7,8,16,33,64}, warm_up on/off, page cache 1..256 MiB, leaf cache 1..256 MiB, io_workers 1..3, prepopulation, upper levels 0..3, hashtable_buckets in {4096,16384,64000}, different bitbox seeds; the runtime configuration also changes at every reopen); EVERY protocol line (roots, values, proofs byte-for-byte, commit / rollback verdicts, seqn) must be identical across configurations and equal to the configuration-free Lean model. distinct & non-trivial = (history, configuration) pairs beyond the first configuration that completed identically.",
         "trusted_base": API_TB, "assumptions": ["thread interleavings are whatever the runs happen to exhibit (sampled, not enumerated)", "sha2 hasher variant not exercised (engine is instantiated with Blake3)"],
     },
     "C06": {
         "lines": ['witness'],
         "tags": ['C06'],
-        "runs": DB_SCN(["witness-many-workers"]) + [DB("kv", 200, 2000, nops=14), DB("overlay", 80, 800, nops=14), DB("kv", 6, 60, nops=14, scale=60, shards_q=6), DB("general", 60, 600, nops=14)],
-        "rule": DB_RULE + " C06: half of all sessions (all in the directed scenario) run with WitnessMode::read_write(); the real witness is (i) verified path by path against the base root, every read confirmed with the real verifier and compared with the session's view, every write matched against the batch, and replayed with the real verify_update against the reported new root (oracle), and (ii) canonicalised and compared byte-for-byte with the Lean witnessSpec. Batches mix reads, writes, read-then-writes, deletes of absent keys, several keys per terminal, 1..64 workers.",
+        "runs": DB_SCN(["witness-many-workers"]) + [DB("kv", 200, 2000, nops=14), DB("overlay", 80, 800, nops=14), DB("kv", 6, 60, nops=14, scale=60, shards_q=6), DB("general", 60, 600, nops=14), dict(SHARDS_RUN)],
+        "rule": DB_RULE + UNIT_RULE + " C06: half of all sessions (all in the directed scenario) run with WitnessMode::read_write(); the real witness is (i) verified path by path against the base root, every read confirmed with the real verifier and compared with the session's view, every write matched against the batch, and replayed with the real verify_update against the reported new root (oracle), and (ii) canonicalised and compared byte-for-byte with the Lean witnessSpec. Batches mix reads, writes, read-then-writes, deletes of absent keys, several keys per terminal, 1..64 workers.",
         "trusted_base": API_TB, "assumptions": API_ASSUME,
     },
     "C20": {
